@@ -795,6 +795,8 @@ class World:
         nids = [self.nid_of(r) for r in refs]
         try:
             nid = od.tape(self.tape, nids, p, const, None)
+            if not self.tape.nodes[nid].opaque:
+                self.tape.set_val(nid, sout)
         except Exception as e:  # tape cannot model this statement: opaque
             nid = self.tape.opaque(np.asarray(sout, dtype=np.float64), nids, const)
             self.count("tape.opaque")
@@ -942,6 +944,12 @@ class World:
         # under MyGrad's internal mem_guard_off and is force-locked afterwards)
         self._mark_entered(refs)
         # ---- M1
+        if self.tracking:
+            # a tracked update gives the tensor new memory; arrays the caller took from it before
+            # (t.data, np.asarray(t)) keep the old memory and the old values
+            for ha, sa in list(self.SA.items()):
+                if sa is st:
+                    self.SA[ha] = np.array(st, copy=True)
         apply_np(st)
         self.last_inplace = {"tgt": h, "same_object": True, "value_ok": None}
         if not self.tracking:
@@ -1010,6 +1018,7 @@ class World:
                 new = self._fit(new, old, const)
                 if mask is not None:
                     new = tp.apply("maskmerge", [new, old], {"mask": mask}, const)
+            tp.set_val(new, self.S[h])
         except Exception:
             new = tp.opaque(np.asarray(self.S[h], dtype=np.float64), [old] + nids, const)
             self.count("tape.opaque")
